@@ -1,3 +1,785 @@
 //go:build verif
 
 package cache
+
+// In-package simulation harness for the directory cache (C12, C14). One OS process runs many
+// scenarios, each in its own testing/synctest bubble under the seeded scheduler, on a scratch
+// tree under $root (tmpfs). Results are written as JSON lines to $out.
+
+import (
+	"crypto/sha256"
+	"encoding/hex"
+	"encoding/json"
+	"fmt"
+	"os"
+	"path/filepath"
+	"sort"
+	"strings"
+	"testing"
+	"testing/synctest"
+	"time"
+
+	"github.com/thought-machine/please/src/core"
+	"github.com/thought-machine/please/src/verifsim"
+)
+
+type vcRun struct {
+	Mode   string          `json:"mode"`
+	Seed   uint64          `json:"seed"`
+	Start  int             `json:"start"`
+	Count  int             `json:"count"`
+	Root   string          `json:"root"`
+	Out    string          `json:"out"`
+	Tier   string          `json:"tier"`
+	Replay json.RawMessage `json:"replay"`
+}
+
+type vcResult struct {
+	Index      int                    `json:"index"`
+	Mode       string                 `json:"mode"`
+	Seed       uint64                 `json:"seed"`
+	Params     map[string]interface{} `json:"params"`
+	Evals      int                    `json:"evals"`
+	Nontrivial int                    `json:"nontrivial"`
+	Sigs       []string               `json:"sigs"`
+	Violation  *vcViolation           `json:"violation,omitempty"`
+	Known      []*vcViolation         `json:"known,omitempty"`
+	Stats      map[string]int64       `json:"stats"`
+	Sample     interface{}            `json:"sample,omitempty"`
+}
+
+type vcViolation struct {
+	Class   string                 `json:"class"`
+	Detail  string                 `json:"detail"`
+	Replay  map[string]interface{} `json:"replay"`
+	Finding string                 `json:"finding,omitempty"` // narrow identity of a known defect, if the failing history matches one
+}
+
+// ---- output trees ---------------------------------------------------------------------------
+
+// A vcEntry is one entry of a generated output tree, path relative to the target's out dir.
+type vcEntry struct {
+	Path    string `json:"p"`
+	Kind    string `json:"k"` // F, D, L
+	Content string `json:"c,omitempty"`
+	Exec    bool   `json:"x,omitempty"`
+	Link    string `json:"l,omitempty"`
+}
+
+type vcTree struct {
+	Outs    []string  `json:"outs"` // declared outputs (top-level names)
+	Entries []vcEntry `json:"entries"`
+}
+
+var vcNames = []string{"a", "b.txt", "c d", "e=f", "g.tar.gz", "h", "lib.so", "z_"}
+
+func genTree(r *verifsim.Rand, tag string) vcTree {
+	var t vcTree
+	nouts := 1 + r.Intn(3)
+	used := map[string]bool{}
+	for i := 0; i < nouts; i++ {
+		name := vcNames[r.Intn(len(vcNames))]
+		if used[name] {
+			continue
+		}
+		used[name] = true
+		t.Outs = append(t.Outs, name)
+		if r.Intn(10) < 5 {
+			// directory output
+			t.Entries = append(t.Entries, vcEntry{Path: name, Kind: "D"})
+			n := 1 + r.Intn(5)
+			var files []string
+			for j := 0; j < n; j++ {
+				sub := []string{"", "", "s/", "s/t/"}[r.Intn(4)]
+				if sub != "" {
+					parts := strings.Split(strings.TrimSuffix(sub, "/"), "/")
+					cur := name
+					for _, p := range parts {
+						cur += "/" + p
+						t.Entries = append(t.Entries, vcEntry{Path: cur, Kind: "D"})
+					}
+				}
+				p := fmt.Sprintf("%s/%sf%d", name, sub, j)
+				switch k := r.Intn(10); {
+				case k < 7:
+					t.Entries = append(t.Entries, vcEntry{Path: p, Kind: "F", Content: fmt.Sprintf("%s %s %d %s", tag, p, r.Intn(1000), strings.Repeat("x", r.Intn(3000))), Exec: r.Intn(5) == 0})
+					files = append(files, p)
+				case k < 8 && len(files) > 0:
+					// relative symlink to an earlier file in the same output
+					rel, _ := filepath.Rel(filepath.Dir(p), files[r.Intn(len(files))])
+					t.Entries = append(t.Entries, vcEntry{Path: p, Kind: "L", Link: rel})
+				default:
+					t.Entries = append(t.Entries, vcEntry{Path: p + "_emptydir", Kind: "D"})
+				}
+			}
+		} else {
+			t.Entries = append(t.Entries, vcEntry{Path: name, Kind: "F", Content: fmt.Sprintf("%s %s %d %s", tag, name, r.Intn(1000), strings.Repeat("y", r.Intn(5000))), Exec: r.Intn(5) == 0})
+		}
+	}
+	// dedupe directory entries
+	seen := map[string]bool{}
+	var es []vcEntry
+	for _, e := range t.Entries {
+		if seen[e.Path] {
+			continue
+		}
+		seen[e.Path] = true
+		es = append(es, e)
+	}
+	t.Entries = es
+	sort.Strings(t.Outs)
+	return t
+}
+
+func writeTree(dir string, t vcTree) {
+	must(os.MkdirAll(dir, 0o775))
+	for _, e := range t.Entries {
+		p := filepath.Join(dir, e.Path)
+		switch e.Kind {
+		case "D":
+			must(os.MkdirAll(p, 0o775))
+		case "F":
+			must(os.MkdirAll(filepath.Dir(p), 0o775))
+			mode := os.FileMode(0o664)
+			if e.Exec {
+				mode = 0o775
+			}
+			must(os.WriteFile(p, []byte(e.Content), mode))
+		case "L":
+			must(os.MkdirAll(filepath.Dir(p), 0o775))
+			must(os.Symlink(e.Link, p))
+		}
+	}
+}
+
+func must(err error) {
+	if err != nil {
+		panic(err)
+	}
+}
+
+// snapTree renders the tree under dir restricted to the declared outs, canonical and comparable.
+func snapTree(dir string, outs []string) []string {
+	var res []string
+	for _, o := range outs {
+		root := filepath.Join(dir, o)
+		filepath.Walk(root, func(p string, info os.FileInfo, err error) error {
+			if err != nil {
+				return nil
+			}
+			rel, _ := filepath.Rel(dir, p)
+			switch {
+			case info.Mode()&os.ModeSymlink != 0:
+				l, _ := os.Readlink(p)
+				res = append(res, "L "+rel+" -> "+l)
+			case info.IsDir():
+				res = append(res, "D "+rel)
+			default:
+				b, _ := os.ReadFile(p)
+				h := sha256.Sum256(b)
+				x := ""
+				if info.Mode()&0o111 != 0 {
+					x = " x"
+				}
+				res = append(res, fmt.Sprintf("F %s %d %s%s", rel, len(b), hex.EncodeToString(h[:6]), x))
+			}
+			return nil
+		})
+	}
+	sort.Strings(res)
+	return res
+}
+
+func modelTree(t vcTree) []string {
+	var res []string
+	for _, e := range t.Entries {
+		switch e.Kind {
+		case "D":
+			res = append(res, "D "+e.Path)
+		case "L":
+			res = append(res, "L "+e.Path+" -> "+e.Link)
+		default:
+			h := sha256.Sum256([]byte(e.Content))
+			x := ""
+			if e.Exec {
+				x = " x"
+			}
+			res = append(res, fmt.Sprintf("F %s %d %s%s", e.Path, len(e.Content), hex.EncodeToString(h[:6]), x))
+		}
+	}
+	sort.Strings(res)
+	return res
+}
+
+func sameSnap(a, b []string) bool {
+	if len(a) != len(b) {
+		return false
+	}
+	for i := range a {
+		if a[i] != b[i] {
+			return false
+		}
+	}
+	return true
+}
+
+func snapSig(s []string) string {
+	h := sha256.Sum256([]byte(strings.Join(s, "\n")))
+	return hex.EncodeToString(h[:8])
+}
+
+// ---- scenario plumbing --------------------------------------------------------------------------
+
+type vcEnv struct {
+	root     string // scenario root = core.RepoRoot = cwd
+	cacheDir string
+	compress bool
+}
+
+func newEnv(root string, compress bool) *vcEnv {
+	os.RemoveAll(root)
+	must(os.MkdirAll(root, 0o775))
+	must(os.Chdir(root))
+	core.RepoRoot = root
+	verifsim.FSRoot = root
+	return &vcEnv{root: root, cacheDir: filepath.Join(root, "cache"), compress: compress}
+}
+
+func (e *vcEnv) newCache() *dirCache {
+	config := core.DefaultConfiguration()
+	config.Cache.Dir = e.cacheDir
+	config.Cache.DirCompress = e.compress
+	config.Cache.DirClean = false
+	return newDirCache(config)
+}
+
+// target returns the build target as seen by simulated process proc: same package and name (hence
+// the same cache entry) but its own output directory, as two checkouts sharing one cache have.
+func vcTarget(proc string, outs []string) *core.BuildTarget {
+	t := core.NewBuildTarget(core.BuildLabel{Subrepo: proc, PackageName: "pkg", Name: "tgt"})
+	for _, o := range outs {
+		t.AddOutput(o)
+	}
+	return t
+}
+
+func (e *vcEnv) outDir(t *core.BuildTarget) string { return filepath.Join(e.root, t.OutDir()) }
+
+func wipe(dir string) {
+	os.RemoveAll(dir)
+	must(os.MkdirAll(dir, 0o775))
+}
+
+// bubble runs fn as the root of a fresh synctest bubble with a fresh scheduler.
+func bubble(t *testing.T, seed uint64, policy string, choices []int, fn func(s *verifsim.Scheduler)) (steps int, choicesOut []int) {
+	defer func() {
+		if r := recover(); r != nil {
+			// the end-of-bubble complaint about tasks blocked forever by an injected crash
+			if !strings.Contains(fmt.Sprint(r), "deadlock") && !strings.Contains(fmt.Sprint(r), "blocked") {
+				panic(r)
+			}
+		}
+	}()
+	var tf *os.File
+	if d := os.Getenv("VERIF_TRACE_DIR"); d != "" {
+		vcTraceN++
+		tf, _ = os.Create(filepath.Join(d, fmt.Sprintf("trace%d", vcTraceN)))
+		defer tf.Close()
+	}
+	synctest.Test(t, func(t *testing.T) {
+		verifsim.Enable()
+		s := verifsim.NewScheduler(verifsim.Config{Seed: seed, Policy: policy, Choices: choices, MaxSteps: 200000, MaxSimTime: time.Hour, Record: true, Trace: tf})
+		fn(s)
+		steps = s.Steps
+		choicesOut = s.Recorded()
+	})
+	return
+}
+
+var vcTraceN int
+
+var vcKey = []byte("12345678901234567890") // 20 bytes like a sha1
+
+// ---- C12 scenario: crash enumeration -----------------------------------------------------------
+
+type c12Params struct {
+	Compress bool   `json:"compress"`
+	Restore  bool   `json:"restore"`  // a complete entry for the key exists before the crashed Store
+	SameTree bool   `json:"sametree"` // the re-stored tree equals the published one
+	Tree1    vcTree `json:"tree1"`
+	Tree2    vcTree `json:"tree2"`
+	CrashAt  int64  `json:"crash_at"` // 0 = enumerate all
+	Tear     bool   `json:"tear"`
+	Seed     uint64 `json:"seed"`
+}
+
+func genC12(seed uint64) c12Params {
+	r := verifsim.NewRand(verifsim.SubSeed(seed, "c12"))
+	p := c12Params{Seed: seed, Compress: r.Intn(2) == 0, Restore: r.Intn(5) < 3, SameTree: r.Intn(2) == 0, Tear: r.Intn(2) == 0}
+	p.Tree1 = genTree(r, "one")
+	p.Tree2 = genTree(r, "two")
+	p.Tree2.Outs = p.Tree1.Outs // the same key implies the same declared outputs
+	if p.SameTree || !sameOuts(p.Tree1, p.Tree2) {
+		p.Tree2 = p.Tree1
+		p.SameTree = true
+	}
+	return p
+}
+
+func sameOuts(a, b vcTree) bool {
+	// tree2 must have an entry for every declared out
+	top := map[string]bool{}
+	for _, e := range b.Entries {
+		top[strings.Split(e.Path, "/")[0]] = true
+	}
+	for _, o := range a.Outs {
+		if !top[o] {
+			return false
+		}
+	}
+	return len(top) == len(a.Outs)
+}
+
+// runC12Once performs: [clean Store(tree1)] ; Store(tree2) crashed at op n (0 = no crash) ;
+// restart ; Retrieve into another checkout. Returns (ops of the crashed store, verdict).
+func runC12Once(t *testing.T, root string, p c12Params, n int64) (ops int64, class, detail string, fired bool) {
+	ops, class, detail, fired, _ = runC12OnceLog(t, root, p, n)
+	return
+}
+
+func runC12OnceLog(t *testing.T, root string, p c12Params, n int64) (ops int64, class, detail string, fired bool, oplog []string) {
+	env := newEnv(root, p.Compress)
+	tA := vcTarget("coA", p.Tree1.Outs)
+	tB := vcTarget("coB", p.Tree1.Outs)
+	var hit, hit2 bool
+	var got, got2 []string
+	bubble(t, p.Seed, "first", nil, func(s *verifsim.Scheduler) {
+		verifsim.ResetFS()
+		verifsim.FSYield = true
+		if p.Restore {
+			writeTree(env.outDir(tA), p.Tree1)
+			c := env.newCache()
+			s.RunTasks([]verifsim.TaskSpec{{ID: "pre", Proc: "pre", Fn: func() { c.Store(tA, vcKey, p.Tree1.Outs) }}})
+			wipe(env.outDir(tA))
+		}
+		writeTree(env.outDir(tA), p.Tree2)
+		c := env.newCache() // creating the cache root is not part of Store
+		verifsim.ResetFS()
+		verifsim.KeepOpLog = true
+		if n > 0 {
+			arg := "notear"
+			if p.Tear {
+				arg = ""
+			}
+			verifsim.SetFaultPlan([]verifsim.Fault{{Kind: "crash", At: n, Arg: arg}}, p.Seed)
+		}
+		fin := s.RunTasks([]verifsim.TaskSpec{{ID: "A", Proc: "A", Fn: func() { c.Store(tA, vcKey, p.Tree2.Outs) }}})
+		ops = verifsim.FSOps()
+		oplog = verifsim.OpLog()
+		verifsim.KeepOpLog = false
+		fired = !fin["A"]
+		verifsim.ResetFS()
+		// "restart": a fresh process with a fresh cache object retrieves into an empty out dir
+		c2 := env.newCache()
+		wipe(env.outDir(tB))
+		s.RunTasks([]verifsim.TaskSpec{{ID: "B", Proc: "B", Fn: func() { hit = c2.Retrieve(tB, vcKey, p.Tree1.Outs) }}})
+		got = snapTree(env.outDir(tB), p.Tree1.Outs)
+		if n > 0 {
+			// the build is repeated after the crash: a third process stores the key again, completely,
+			// and a fourth retrieves it. Whatever the crash left behind must not leak into that entry.
+			tC := vcTarget("coC", p.Tree1.Outs)
+			writeTree(env.outDir(tC), p.Tree2)
+			c3 := env.newCache()
+			s.RunTasks([]verifsim.TaskSpec{{ID: "C", Proc: "C", Fn: func() { c3.Store(tC, vcKey, p.Tree2.Outs) }}})
+			tD := vcTarget("coD", p.Tree1.Outs)
+			wipe(env.outDir(tD))
+			c4 := env.newCache()
+			s.RunTasks([]verifsim.TaskSpec{{ID: "D", Proc: "D", Fn: func() { hit2 = c4.Retrieve(tD, vcKey, p.Tree1.Outs) }}})
+			got2 = snapTree(env.outDir(tD), p.Tree1.Outs)
+		}
+	})
+	m1, m2 := modelTree(p.Tree1), modelTree(p.Tree2)
+	if n > 0 && (!hit2 || !sameSnap(got2, m2)) {
+		return ops, "bad-restore-after-crashed-store", fmt.Sprintf("after a Store crashed before op %d, a complete second Store of the key followed by Retrieve gave hit=%v %v, stored was %v (compress=%v restore=%v)", n, hit2, got2, m2, p.Compress, p.Restore), fired, oplog
+	}
+	if !hit {
+		if n == 0 {
+			var ls []string
+			filepath.Walk(env.root, func(pp string, info os.FileInfo, err error) error {
+				if err == nil {
+					ls = append(ls, fmt.Sprintf("%s(%d)", strings.TrimPrefix(pp, env.root), info.Size()))
+				}
+				return nil
+			})
+			return ops, "miss-after-store", fmt.Sprintf("Retrieve after a completed Store missed (compress=%v ops=%d) files: %v", p.Compress, ops, ls), fired, oplog
+		}
+		return ops, "", "", fired, oplog
+	}
+	if sameSnap(got, m2) || (p.Restore && sameSnap(got, m1)) {
+		return ops, "", "", fired, oplog
+	}
+	cls := "partial-hit-after-crash"
+	if n == 0 {
+		cls = "wrong-tree-after-store"
+	}
+	return ops, cls, fmt.Sprintf("Retrieve reported a hit but restored %v; complete trees are %v (new) / %v (old, restore=%v); crash before op %d of Store, compress=%v", got, m2, m1, p.Restore, n, p.Compress), fired, oplog
+}
+
+// c12Finding names the known defect a failing crash history matches, if any: the crash landed
+// inside Store's initial recursive delete of the already published entry (every operation up to
+// and including the crash point is an unlink/rmdir below the published entry's path).
+func c12Finding(p c12Params, cls string, n int64, oplog []string) string {
+	if cls != "partial-hit-after-crash" || !p.Restore || p.Compress || n < 1 || int(n) > len(oplog) {
+		return ""
+	}
+	for _, l := range oplog[:n] {
+		f := strings.Fields(l)
+		if len(f) < 2 || (f[0] != "unlink" && f[0] != "rmdir") || !strings.HasPrefix(f[1], "cache/pkg/tgt/") || strings.Contains(f[1], "==") {
+			return ""
+		}
+	}
+	return "C12-restore-delete-not-atomic"
+}
+
+func scenarioC12(t *testing.T, root string, seed uint64, replay *c12Params, tier string) vcResult {
+	p := genC12(seed)
+	if replay != nil {
+		p = *replay
+	}
+	res := vcResult{Mode: "c12", Seed: seed, Stats: map[string]int64{}, Params: map[string]interface{}{"compress": p.Compress, "restore": p.Restore, "sametree": p.SameTree, "tear": p.Tear, "outs": p.Tree1.Outs, "entries": len(p.Tree2.Entries)}}
+	points := []int64{}
+	if p.CrashAt > 0 {
+		points = append(points, p.CrashAt)
+	} else {
+		ops, cls, detail, _ := runC12Once(t, root, p, 0)
+		res.Evals++
+		if cls != "" {
+			q := p
+			res.Violation = &vcViolation{Class: cls, Detail: detail, Replay: map[string]interface{}{"params": q}}
+			return res
+		}
+		for n := int64(1); n <= ops; n++ {
+			points = append(points, n)
+		}
+		res.Stats["store_ops"] = ops
+	}
+	for _, n := range points {
+		_, cls, detail, fired, oplog := runC12OnceLog(t, root, p, n)
+		res.Evals++
+		if fired {
+			res.Stats["crashes_fired"]++
+			if len(p.Tree2.Entries) >= 2 {
+				res.Nontrivial++
+				res.Sigs = append(res.Sigs, fmt.Sprintf("c12/%d/%d", seed, n))
+			}
+		}
+		if cls != "" {
+			q := p
+			q.CrashAt = n
+			v := &vcViolation{Class: cls, Detail: detail, Replay: map[string]interface{}{"params": q}, Finding: c12Finding(p, cls, n, oplog)}
+			if v.Finding != "" && p.CrashAt == 0 {
+				// a known defect: note it and keep enumerating, other crash points may fail differently
+				res.Known = append(res.Known, v)
+				continue
+			}
+			res.Violation = v
+			return res
+		}
+	}
+	for k, v := range verifsim.FaultsFired() {
+		res.Stats["fault_"+k] = v
+	}
+	return res
+}
+
+// ---- C12 scenario: fault-free model ------------------------------------------------------------
+
+type c12mParams struct {
+	Seed     uint64 `json:"seed"`
+	Compress bool   `json:"compress"`
+}
+
+func scenarioC12Model(t *testing.T, root string, seed uint64, tier string) vcResult {
+	r := verifsim.NewRand(verifsim.SubSeed(seed, "c12m"))
+	compress := r.Intn(2) == 0
+	res := vcResult{Mode: "c12m", Seed: seed, Stats: map[string]int64{}, Params: map[string]interface{}{"compress": compress}}
+	env := newEnv(root, compress)
+	keys := [][]byte{[]byte("12345678901234567890"), []byte("abcdefghijabcdefghij"), []byte("ABCDEFGHIJ0123456789")}
+	model := map[int]*vcTree{}
+	nops := 4 + r.Intn(8)
+	var ops []string
+	var viol *vcViolation
+	bubble(t, seed, "first", nil, func(s *verifsim.Scheduler) {
+		verifsim.ResetFS()
+		c := env.newCache()
+		for i := 0; i < nops && viol == nil; i++ {
+			k := r.Intn(len(keys))
+			switch op := r.Intn(10); {
+			case op < 4:
+				tr := genTree(r, fmt.Sprintf("m%d", i))
+				tg := vcTarget("co", tr.Outs)
+				wipe(env.outDir(tg))
+				writeTree(env.outDir(tg), tr)
+				s.RunTasks([]verifsim.TaskSpec{{ID: "s", Proc: "P", Fn: func() { c.Store(tg, keys[k], tr.Outs) }}})
+				model[k] = &tr
+				ops = append(ops, fmt.Sprintf("store k%d %v", k, tr.Outs))
+			case op < 9:
+				var outs []string
+				if model[k] != nil {
+					outs = model[k].Outs
+				} else {
+					outs = []string{"a"}
+				}
+				tg := vcTarget("co2", outs)
+				wipe(env.outDir(tg))
+				var hit bool
+				s.RunTasks([]verifsim.TaskSpec{{ID: "r", Proc: "P", Fn: func() { hit = c.Retrieve(tg, keys[k], outs) }}})
+				ops = append(ops, fmt.Sprintf("retrieve k%d -> %v", k, hit))
+				res.Evals++
+				if model[k] == nil {
+					if hit {
+						viol = &vcViolation{Class: "hit-never-stored", Detail: fmt.Sprintf("Retrieve of a key that was never stored reported a hit; ops=%v", ops)}
+					}
+				} else {
+					got := snapTree(env.outDir(tg), outs)
+					want := modelTree(*model[k])
+					if !hit {
+						viol = &vcViolation{Class: "miss-after-store", Detail: fmt.Sprintf("Retrieve after a completed Store missed; ops=%v compress=%v", ops, compress)}
+					} else if !sameSnap(got, want) {
+						viol = &vcViolation{Class: "wrong-tree-after-store", Detail: fmt.Sprintf("Retrieve restored %v, stored was %v; ops=%v compress=%v", got, want, ops, compress)}
+					} else {
+						res.Nontrivial++
+					}
+				}
+			default:
+				c = env.newCache() // restart
+				ops = append(ops, "restart")
+			}
+		}
+	})
+	res.Sigs = append(res.Sigs, fmt.Sprintf("c12m/%d", seed))
+	if viol != nil {
+		viol.Replay = map[string]interface{}{"seed": seed}
+		res.Violation = viol
+	}
+	res.Sample = ops
+	return res
+}
+
+// ---- C12 scenario: concurrent processes on one key -------------------------------------------------
+
+type c12cParams struct {
+	Seed     uint64   `json:"seed"`
+	Compress bool     `json:"compress"`
+	Procs    []string `json:"procs"` // "S" store, "R" retrieve, per process a sequence like "SR"
+	Pre      bool     `json:"pre"`   // an entry exists beforehand
+	Trees    []vcTree `json:"trees"`
+	Policy   string   `json:"policy"`
+	Choices  []int    `json:"choices"`
+}
+
+func genC12c(seed uint64) c12cParams {
+	r := verifsim.NewRand(verifsim.SubSeed(seed, "c12c"))
+	p := c12cParams{Seed: seed, Compress: r.Intn(2) == 0, Pre: r.Intn(2) == 0}
+	np := 2 + r.Intn(2)
+	base := genTree(r, "t0")
+	p.Trees = append(p.Trees, base)
+	for i := 0; i < np; i++ {
+		seq := ""
+		for j := 0; j < 1+r.Intn(2); j++ {
+			seq += []string{"S", "R", "R"}[r.Intn(3)]
+		}
+		p.Procs = append(p.Procs, seq)
+		// every process that stores has its own content for the same declared outs
+		tr := genTree(verifsim.NewRand(verifsim.SubSeed(seed, "c12c-base")), fmt.Sprintf("t%d", i+1))
+		tr = retag(base, fmt.Sprintf("t%d", i+1))
+		p.Trees = append(p.Trees, tr)
+	}
+	hasS, hasR := p.Pre, false
+	for _, s := range p.Procs {
+		hasS = hasS || strings.Contains(s, "S")
+		hasR = hasR || strings.Contains(s, "R")
+	}
+	if !hasS {
+		p.Procs[0] = "S" + p.Procs[0]
+	}
+	if !hasR {
+		p.Procs[len(p.Procs)-1] += "R"
+	}
+	return p
+}
+
+// retag returns the same shape with different file contents.
+func retag(t vcTree, tag string) vcTree {
+	n := vcTree{Outs: t.Outs}
+	for _, e := range t.Entries {
+		if e.Kind == "F" {
+			e.Content = tag + " " + e.Content
+		}
+		n.Entries = append(n.Entries, e)
+	}
+	return n
+}
+
+func scenarioC12c(t *testing.T, root string, seed uint64, replay *c12cParams, tier string) vcResult {
+	p := genC12c(seed)
+	if replay != nil {
+		p = *replay
+	}
+	res := vcResult{Mode: "c12c", Seed: seed, Stats: map[string]int64{}, Params: map[string]interface{}{"compress": p.Compress, "procs": p.Procs, "pre": p.Pre}}
+	env := newEnv(root, p.Compress)
+	outs := p.Trees[0].Outs
+	type obs struct {
+		proc string
+		hit  bool
+		snap []string
+	}
+	var observations []obs
+	var finalHit bool
+	var finalSnap []string
+	_, choices := bubble(t, seed, p.Policy, p.Choices, func(s *verifsim.Scheduler) {
+		verifsim.ResetFS()
+		if p.Pre {
+			tg := vcTarget("pre", outs)
+			writeTree(env.outDir(tg), p.Trees[0])
+			c := env.newCache()
+			s.RunTasks([]verifsim.TaskSpec{{ID: "pre", Proc: "pre", Fn: func() { c.Store(tg, vcKey, outs) }}})
+		}
+		var tasks []verifsim.TaskSpec
+		for i, seq := range p.Procs {
+			i, seq := i, seq
+			proc := fmt.Sprintf("P%d", i+1)
+			tg := vcTarget(proc, outs)
+			rt := vcTarget(proc+"r", outs)
+			c := env.newCache()
+			writeTree(env.outDir(tg), p.Trees[i+1])
+			tasks = append(tasks, verifsim.TaskSpec{ID: proc, Proc: proc, Fn: func() {
+				for _, op := range seq {
+					if op == 'S' {
+						c.Store(tg, vcKey, outs)
+					} else {
+						wipe(env.outDir(rt))
+						hit := c.Retrieve(rt, vcKey, outs)
+						observations = append(observations, obs{proc, hit, snapTree(env.outDir(rt), outs)})
+					}
+				}
+			}})
+		}
+		s.RunTasks(tasks)
+		res.Stats["sched_steps"] += int64(s.Steps)
+		res.Stats["choices2plus"] += int64(s.Choices2plus)
+		// quiescent final retrieve by a fresh process
+		c := env.newCache()
+		ft := vcTarget("final", outs)
+		wipe(env.outDir(ft))
+		s.RunTasks([]verifsim.TaskSpec{{ID: "F", Proc: "F", Fn: func() { finalHit = c.Retrieve(ft, vcKey, outs) }}})
+		finalSnap = snapTree(env.outDir(ft), outs)
+	})
+	res.Evals = 1
+	var complete [][]string
+	for _, tr := range p.Trees {
+		complete = append(complete, modelTree(tr))
+	}
+	isComplete := func(s []string) bool {
+		for _, c := range complete {
+			if sameSnap(s, c) {
+				return true
+			}
+		}
+		return false
+	}
+	mk := func(cls, detail string) {
+		q := p
+		q.Choices = choices
+		// known defect: more than one Store of the key is involved (stores of different processes share
+		// the temporary directory, and a Store deletes the published entry in place)
+		stores := 0
+		if p.Pre {
+			stores++
+		}
+		for _, sq := range p.Procs {
+			stores += strings.Count(sq, "S")
+		}
+		finding := ""
+		if stores >= 2 {
+			finding = "C12-concurrent-stores-of-one-key"
+		}
+		res.Violation = &vcViolation{Class: cls, Detail: detail, Replay: map[string]interface{}{"params": q}, Finding: finding}
+	}
+	for _, o := range observations {
+		if o.hit && !isComplete(o.snap) {
+			mk("partial-hit-concurrent", fmt.Sprintf("process %s: Retrieve reported a hit but restored %v, which is not the complete tree of any Store of this key (procs=%v pre=%v compress=%v)", o.proc, o.snap, p.Procs, p.Pre, p.Compress))
+			return res
+		}
+	}
+	if finalHit && !isComplete(finalSnap) {
+		mk("partial-hit-after-concurrent", fmt.Sprintf("after all processes finished, Retrieve reported a hit but restored %v (procs=%v pre=%v compress=%v)", finalSnap, p.Procs, p.Pre, p.Compress))
+		return res
+	}
+	if res.Stats["choices2plus"] >= 5 {
+		res.Nontrivial = 1
+		res.Sigs = append(res.Sigs, fmt.Sprintf("c12c/%d/%d", seed, res.Stats["sched_steps"]))
+	}
+	return res
+}
+
+// ---- driver -------------------------------------------------------------------------------------
+
+func TestVerifCache(t *testing.T) {
+	path := os.Getenv("VERIF_RUN")
+	if path == "" {
+		t.Skip("VERIF_RUN not set")
+	}
+	data, err := os.ReadFile(path)
+	must(err)
+	var run vcRun
+	must(json.Unmarshal(data, &run))
+	out, err := os.OpenFile(run.Out, os.O_WRONLY|os.O_CREATE|os.O_TRUNC, 0o644)
+	must(err)
+	enc := json.NewEncoder(out)
+	for i := run.Start; i < run.Start+run.Count; i++ {
+		seed := verifsim.SubSeed(run.Seed, fmt.Sprintf("%s/%d", run.Mode, i))
+		root := filepath.Join(run.Root, fmt.Sprintf("s%d", i))
+		var res vcResult
+		switch run.Mode {
+		case "c12":
+			var rp *c12Params
+			if len(run.Replay) > 0 {
+				rp = &c12Params{}
+				must(json.Unmarshal(run.Replay, rp))
+			}
+			res = scenarioC12(t, root, seed, rp, run.Tier)
+		case "c12m":
+			if len(run.Replay) > 0 {
+				var rp struct {
+					Seed uint64 `json:"seed"`
+				}
+				must(json.Unmarshal(run.Replay, &rp))
+				seed = rp.Seed
+			}
+			res = scenarioC12Model(t, root, seed, run.Tier)
+		case "c12c":
+			var rp *c12cParams
+			if len(run.Replay) > 0 {
+				rp = &c12cParams{}
+				must(json.Unmarshal(run.Replay, rp))
+			}
+			res = scenarioC12c(t, root, seed, rp, run.Tier)
+		case "c14":
+			var rp *c14Params
+			if len(run.Replay) > 0 {
+				rp = &c14Params{}
+				must(json.Unmarshal(run.Replay, rp))
+			}
+			res = scenarioC14(t, root, seed, rp, run.Tier)
+		default:
+			panic("unknown mode " + run.Mode)
+		}
+		res.Index = i
+		must(enc.Encode(res))
+		os.Chdir(run.Root)
+		os.RemoveAll(root)
+	}
+	out.Close()
+	os.Exit(0)
+}
